@@ -27,7 +27,7 @@ import (
 
 // Op is one REPL-level operation.
 type Op struct {
-	Kind string   `json:"k"`           // add | readd | clear | limit | sadd | sclear | setq
+	Kind string `json:"k"` // add | readd | clear | limit | sadd | sclear | setq
 	// readd: what the editor does when an entry is recalled, edited and entered:
 	// the A-th most recent entry is detached with Form.Dup, one rune of the
 	// copy (selected by B and P) is replaced in place by Ch, the copy is added.
@@ -38,6 +38,9 @@ type Op struct {
 	Ch   string   `json:"ch,omitempty"`
 	Var  string   `json:"var,omitempty"`
 	Val  string   `json:"val,omitempty"`
+	// clear, sclear: "lisp" = through the REPL's own functions, (clear-history :start A :end B)
+	// and (clear-stash ...), which reach the embedded Stash.Clear of the history
+	Via string `json:"via,omitempty"`
 }
 
 // editRunes replaces, in place, one non-blank rune of the form selected by
@@ -151,6 +154,20 @@ func linesOf(f repl.Form) []string {
 	return out
 }
 
+// lispClear evaluates (clear-history ...) / (clear-stash ...) in the REPL scope the way a
+// user types it.
+func lispClear(fn string, a, b int) {
+	src := "(" + fn
+	if a != 0 {
+		src += fmt.Sprintf(" :start %d", a)
+	}
+	if 0 <= b {
+		src += fmt.Sprintf(" :end %d", b)
+	}
+	src += ")"
+	slip.ReadString(src, repl.Scope()).Eval(repl.Scope(), nil)
+}
+
 func sessMain(args []string) int {
 	if len(args) != 2 {
 		return 2
@@ -170,8 +187,9 @@ func sessMain(args []string) int {
 		_ = os.WriteFile(tmp, b, 0o644)
 		_ = os.Rename(tmp, args[1])
 	}
-	var h repl.History
-	var st repl.Stash
+	// the globals the REPL itself uses: the Lisp-level functions act on them
+	h := &repl.TheHistory
+	st := &repl.TheStash
 	if e := sl.Catch(func() {
 		h.SetLimit(in.Limit)
 		h.Load(filepath.Join(in.Dir, "history"))
@@ -218,13 +236,21 @@ func sessMain(args []string) int {
 					h.Add(work)
 				}
 			case "clear":
-				h.Clear(op.A, op.B)
+				if op.Via == "lisp" {
+					lispClear("clear-history", op.A, op.B)
+				} else {
+					h.Clear(op.A, op.B)
+				}
 			case "limit":
 				h.SetLimit(op.A)
 			case "sadd":
 				st.Add(formOf(op.Form))
 			case "sclear":
-				st.Clear(op.A, op.B)
+				if op.Via == "lisp" {
+					lispClear("clear-stash", op.A, op.B)
+				} else {
+					st.Clear(op.A, op.B)
+				}
 			case "setq":
 				code := slip.ReadString(fmt.Sprintf("(setq %s %s)", op.Var, op.Val), repl.Scope())
 				code.Eval(repl.Scope(), nil)
@@ -325,7 +351,7 @@ func genOps(r *rand.Rand, n int, limit int, oddPct int, withClear bool) []Op {
 					b = -1
 				}
 			}
-			ops = append(ops, Op{Kind: "clear", A: a, B: b})
+			ops = append(ops, Op{Kind: "clear", A: a, B: b, Via: []string{"", "lisp"}[r.IntN(2)]})
 		case k < 75:
 			nl := limit/2 + r.IntN(limit+1)
 			if nl < 2 {
@@ -340,7 +366,7 @@ func genOps(r *rand.Rand, n int, limit int, oddPct int, withClear bool) []Op {
 				a = r.IntN(3)
 				b = a + r.IntN(3)
 			}
-			ops = append(ops, Op{Kind: "sclear", A: a, B: b})
+			ops = append(ops, Op{Kind: "sclear", A: a, B: b, Via: []string{"", "lisp"}[r.IntN(2)]})
 		default:
 			v := fw.Pick(r, settingVars)
 			val := fmt.Sprint(2 + r.IntN(35))
